@@ -318,6 +318,8 @@ class _Canon(ast.NodeTransformer):
     def visit_Call(self, node):
         self.generic_visit(node)
         f = node.func
+        if isinstance(f, ast.Attribute) and f.attr == "Size" and isinstance(f.value, ast.Name) and f.value.id == "torch" and len(node.args) == 1 and isinstance(node.args[0], ast.Tuple):
+            return ast.Call(func=f, args=[ast.List(elts=node.args[0].elts, ctx=ast.Load())], keywords=[])
         if isinstance(f, ast.Attribute):
             base = f.value
             # torch.f(x, ...) -> x.f(...)
@@ -344,6 +346,8 @@ class _Canon(ast.NodeTransformer):
                 return ast.Attribute(value=f.value, attr="ndim", ctx=ast.Load())
             return node
         if isinstance(f, ast.Name):
+            if f.id == "float" and len(node.args) == 1 and isinstance(node.args[0], ast.Attribute) and node.args[0].attr in ("max", "min", "eps"):
+                return node.args[0]
             if f.id == "len" and len(node.args) == 1 and isinstance(node.args[0], ast.Attribute) and node.args[0].attr == "shape":
                 return ast.Attribute(value=node.args[0].value, attr="ndim", ctx=ast.Load())
             if f.id == "range" and len(node.args) == 2 and isinstance(node.args[0], ast.Constant) and node.args[0].value == 0 and not node.keywords:
@@ -366,6 +370,13 @@ class _Canon(ast.NodeTransformer):
                             break
                     if ok and not given:
                         return ast.Call(func=f, args=args, keywords=[])
+        return node
+
+    def visit_Subscript(self, node):
+        self.generic_visit(node)
+        v = node.value
+        if isinstance(v, ast.Call) and isinstance(v.func, ast.Name) and v.func.id in ("tuple", "list") and len(v.args) == 1 and not v.keywords:
+            return ast.Subscript(value=v.args[0], slice=node.slice, ctx=node.ctx)
         return node
 
     def visit_BinOp(self, node):
@@ -393,6 +404,10 @@ class _Canon(ast.NodeTransformer):
             if isinstance(node.ops[0], (ast.In, ast.NotIn)) and isinstance(node.comparators[0], ast.List):
                 node.comparators = [ast.Tuple(elts=node.comparators[0].elts, ctx=ast.Load())]
         return node
+
+
+def U_plain(e) -> str:
+    return ast.unparse(e)
 
 
 _CANON_CACHE: Dict[str, str] = {}
@@ -1118,6 +1133,38 @@ def paths_of(fn: ast.FunctionDef, bind: Optional[dict] = None, prune: bool = Tru
         for p in ps:
             _qualify_path(p, q)
     return [p for p in ps if path_feasible(p)] if prune else ps
+
+
+def loop_body_paths(outer: ast.FunctionDef, loop: ast.For, pre_env: Optional[dict] = None) -> List[Path]:
+    """Paths of one iteration of `loop` (a For node of `outer`): the loop target is bound to an opaque element of the
+    iterable, names assigned before the loop in straight-line code are substituted."""
+    env = dict(pre_env or {})
+    # straight-line assignments of the enclosing function that precede the loop
+    for st in outer.body:
+        if st is loop:
+            break
+        if isinstance(st, ast.Assign) and len(st.targets) == 1:
+            t = st.targets[0]
+            val = subst(st.value, env)
+            if isinstance(t, ast.Name):
+                env[t.id] = val
+            elif isinstance(t, ast.Tuple) and all(isinstance(x, ast.Name) for x in t.elts):
+                for i, x in enumerate(t.elts):
+                    env[x.id] = ast.Subscript(value=copy.deepcopy(val), slice=ast.Constant(value=i), ctx=ast.Load())
+    it = subst(loop.iter, env)
+    body_fn = ast.FunctionDef(name=outer.name, args=outer.args, body=loop.body, decorator_list=[], lineno=loop.lineno)
+    mi = _MODULE_OF.get(id(outer))
+    ctx = InlineCtx(ACTIVE_REPO, mi, _CLASS_OF.get(id(outer))) if (ACTIVE_REPO is not None and mi is not None) else None
+    pe = PathEnum(body_fn, env, ctx=ctx)
+    pe._stack = [id(outer), id(body_fn)]
+    p0 = Path()
+    p0.env.update(env)
+    pe.assign(loop.target, opaque("elem", it), p0, loop)
+    live = pe.block(loop.body, [p0])
+    for q in live:
+        q.end = ("fall", None, getattr(loop, "end_lineno", loop.lineno))
+        pe.out.append(q)
+    return [q for q in pe.out if path_feasible(q)]
 
 
 def returns(paths: Iterable[Path]) -> List[Path]:
